@@ -52,7 +52,76 @@ impl FarmSim {
             FOp::Bad(a, b) => self.op_bad(*a, *b, st),
             FOp::Churn { user, lp, rounds, amount, emergency } => self.op_churn(*user, *lp, *rounds, *amount, *emergency, st),
             FOp::ExitOneOfTwo { user, lp, amount, other, close_first } => self.op_exit_one_of_two(*user, *lp, *amount, *other, *close_first, st),
+            FOp::Crowd { user, lp, n } => self.op_crowd(*user, *lp, *n, st),
+            FOp::FillPositions { user, lp } => self.op_fill_positions(*user, *lp, st),
         }
+    }
+
+    fn op_crowd(&mut self, user: u8, lp: u8, n: u8, st: &mut Stats) -> Result<(), String> {
+        let n = n.clamp(11, 13) as u32;
+        let lp_denom = self.lp(lp);
+        if self.max_farms < n {
+            let owner = self.w.owner.clone();
+            let mut msg = Self::update_config_msg();
+            if let fm::ExecuteMsg::UpdateConfig { max_concurrent_farms, .. } = &mut msg {
+                *max_concurrent_farms = Some(n);
+            }
+            if self.w.fm_exec(&owner, &msg, &[]).is_err() {
+                return Ok(());
+            }
+            self.max_farms = n;
+        }
+        let now = self.w.now();
+        for j in 0..(n + 2) {
+            let live = self.l.farms.values().filter(|f| f.lp == lp_denom && !self.farm_expired(f, now)).count() as u32;
+            if live >= n {
+                break;
+            }
+            self.steps += 1;
+            self.op_create_farm(user.wrapping_add(j as u8), lp, (j % 3) as u8, 1000 + 777 * j as u64, None, Some(3 + (j % 5) as u16), None, &Funds::Exact, st)?;
+        }
+        let live = self.l.farms.values().filter(|f| f.lp == lp_denom && !self.farm_expired(f, now)).count() as u32;
+        if live >= 11 {
+            st.bump("crowded LP token: >= 11 live farms");
+        }
+        self.steps += 1;
+        self.op_open(user, lp, 1000, DAY, None, None, st)?;
+        self.w.advance(2 * DAY);
+        for u in self.w.users.clone() {
+            if !self.l.open_positions_of(u.as_str()).is_empty() {
+                self.steps += 1;
+                self.do_claim(&u, None, st)?;
+            }
+        }
+        Ok(())
+    }
+
+    fn op_fill_positions(&mut self, user: u8, lp: u8, st: &mut Stats) -> Result<(), String> {
+        let owner = self.user(user);
+        for j in 0..10u8 {
+            if self.l.open_positions_of(owner.as_str()).len() >= 10 {
+                break;
+            }
+            self.steps += 1;
+            self.op_open(user, lp.wrapping_add(j % 2), 1000 + j as u128, DAY, None, None, st)?;
+        }
+        if self.l.open_positions_of(owner.as_str()).len() < 10 {
+            return Ok(());
+        }
+        st.bump("user at the limit of 10 open positions");
+        // through the pool manager the limit is the same (it counts the positions of whom the LP is locked for)
+        for j in 0..2u8 {
+            self.steps += 1;
+            self.op_lock_via_pm(user, lp.wrapping_add(j), 1000, DAY, None, st)?;
+        }
+        let open: Vec<String> = self.l.open_positions_of(owner.as_str()).iter().map(|p| p.id.clone()).collect();
+        if !open.is_empty() {
+            self.steps += 1;
+            self.op_close_pos(user, Self::idx_for(0, open.len()), &None, true, false, st)?;
+        }
+        self.w.advance(DAY);
+        self.steps += 1;
+        self.op_open(user, lp, 500, DAY, None, None, st)
     }
 
     fn op_exit_one_of_two(&mut self, user: u8, lp: u8, amount: u128, other: u128, close_first: bool, st: &mut Stats) -> Result<(), String> {
@@ -223,7 +292,7 @@ impl FarmSim {
                     apply = Box::new(move |s| s.expiration = t);
                 }
                 3 => {
-                    let n = (self.max_farms + 1).min(4);
+                    let n = if self.max_farms >= 4 { self.max_farms } else { self.max_farms + 1 };
                     *max_concurrent_farms = Some(n);
                     apply = Box::new(move |s| s.max_farms = n);
                 }
